@@ -8,7 +8,13 @@ func init() {
 	propBuilders["C18"] = buildC18
 	propBuilders["C09"] = buildC09
 	propBuilders["C13"] = buildC13
+	propBuilders["C15"] = buildC15
+	propBuilders["C12"] = buildC12
+	propBuilders["C16"] = buildC16
 	propBuilders["C11"] = buildC11
+	registerHarness("C15", "pkg/visitor/printer", "c15_printer_test.go", "TestVCReplayC15")
+	registerHarness("C12", "pkg/visitor/traverser", "c12_traverser_test.go", "TestVCReplayC12")
+	registerHarness("C16", "pkg/visitor/dumper", "c16_dumper_test.go", "TestVCReplayC16")
 	registerHarness("C09", "pkg/parser", "c09_parser_test.go", "TestVCReplayC09")
 	registerHarness("C18", "pkg/token", "c18_token_test.go", "TestVCReplayC18")
 	registerHarness("C18", "pkg/position", "c18_position_test.go", "TestVCReplayC18")
@@ -66,4 +72,32 @@ func buildC11(c *CheckCtx) {
 	c.forbiddenImports([]string{"unsafe", "reflect", "sync", "sync/atomic", "time", "math/rand", "os"})
 	c.assume("Go memory model: goroutines that share no written location do not race; no schedule is explored (DESIGN §5 C11)")
 	c.assume("cmd/php-parser (the CLI) is outside the library; its workers share only channels and read-only flags (read, not verified)")
+}
+
+func buildC15(c *CheckCtx) {
+	c.Technique = "per-kind printer contracts: symbolic trace of each of the 155 printer methods over go/ssa (helpers by contract), compared against the slot set from go/types"
+	kinds := astKinds(c.W)
+	c.checkPrinter(kinds)
+	c.CoverageExtra["kinds"] = len(kinds)
+	c.assume("the trace extractor and comparison (E-TRACE normaliser) are part of the trusted base; SMT plays no role for this property")
+	c.assume("source order of a node's parts = declared field order of its struct in pkg/ast/node.go (the file's convention, confirmed for all kinds on the pinned tree); the grammar-side check of the same order is E-GRAM conserve (C02)")
+}
+
+func buildC12(c *CheckCtx) {
+	c.Technique = "per-kind traverser contracts: symbolic trace of each Traverser method and each Accept method over go/ssa, compared with the slot set (go/types) and the printer's child order"
+	kinds := astKinds(c.W)
+	sub := &CheckCtx{Prop: c.Prop, W: c.W, Assume: map[string]bool{}, Trusted: map[string]bool{}, CoverageExtra: map[string]interface{}{}}
+	order := sub.checkPrinter(kinds) // only for the order oracle; its obligations belong to C15
+	c.checkAccept(kinds)
+	c.checkTraverser(kinds, order)
+	c.CoverageExtra["kinds"] = len(kinds)
+	c.assume("the inner visitor (t.v) is caller code; 'presented to the visitor' means n.Accept(t.v) is called")
+	c.assume("no node object is reachable along two paths of a parsed tree: E-GRAM linear obligations (see C02/C07 evidence when built); not part of this check yet")
+}
+
+func buildC16(c *CheckCtx) {
+	c.Technique = "per-kind dumper contracts: symbolic trace of each of the 155 Dumper methods over go/ssa (helpers by contract) compared with the struct fields from go/types"
+	kinds := astKinds(c.W)
+	c.checkDumper(kinds)
+	c.CoverageExtra["kinds"] = len(kinds)
 }
